@@ -76,3 +76,19 @@ func VerifC11_CanaryStylePlaneUpgradesUnlessNoReplicas() {
 	}
 	verifrt.Assert(ctl.upgrades == 1 || ctl.stable.Replicas == 0, "C11.canarystyle.plane.upgradeSkippedOnlyWithoutReplicas")
 }
+
+// VerifC11_CanaryStylePlaneInitializeRecordsTheWorkload: as for the other styles — the observed size of the stable
+// workload and the revisions are written to the status that is persisted.
+func VerifC11_CanaryStylePlaneInitializeRecordsTheWorkload() {
+	rc, ctl := c11Plane()
+	ctl.stable.Status.StableRevision = "rev-1"
+	ctl.canary.Status.UpdateRevision = "rev-2"
+	rc.newStatus = &v1beta1.BatchReleaseStatus{ObservedWorkloadReplicas: -1}
+	rc.release.Status.ObservedWorkloadReplicas = -1
+	err := rc.Initialize()
+	if err != nil {
+		return
+	}
+	verifrt.Assert(rc.newStatus.ObservedWorkloadReplicas == ctl.stable.Replicas, "C11.canarystyle.plane.initialize.observesTheWorkloadSize")
+	verifrt.Assert(rc.newStatus.StableRevision == "rev-1" && rc.newStatus.UpdateRevision == "rev-2", "C11.canarystyle.plane.initialize.observesTheRevisions")
+}
